@@ -1142,3 +1142,25 @@ def gen_package(seed: int, cfg: Optional[GenConfig] = None, targets=("cpp", "pyt
         out[t] = {TARGET_KEYS[t]: "../out/" + t}
     pkg.targets = out
     return pkg
+
+
+CLUTTER = [(".gitignore", "*.pyc\n__pycache__/\nbuild/\n"), (".gitkeep", ""), (".editorconfig", "root = true\n[*]\nindent_size = 2\n"), (".DS_Store", "\x00\x00\x00\x01Bud1"),
+           ("README.md", "# models\n"), ("notes.txt", "todo\n"), (".vscode/settings.json", "{}\n"), ("docs/overview.md", "overview\n"), ("LICENSE", "MIT\n")]
+
+
+def add_clutter(files: dict, rng: Rng, p_dir=0.45) -> list:
+    """What real package directories also hold besides model files: hidden files, documentation, editor settings
+    (nothing named *.yml / *.yaml: yardl reads every such file below a package directory as a model file).
+    Adds them in place to a rendered tree {abs path: text}; returns the paths added."""
+    added = []
+    for d in sorted({p.rsplit("/", 1)[0] for p in files if p.endswith("/_package.yml")}):
+        r = rng.fork("clutter", d)
+        if not r.chance(p_dir):
+            continue
+        for name, text in r.sample(CLUTTER, r.randint(1, 3)):
+            q = d + "/" + name
+            if q not in files:
+                files[q] = text
+                added.append(q)
+    return added
+
